@@ -35,13 +35,30 @@ def classify(call):
         return "relabel"
     if name in ("remove_edges_from", "remove_simplex_ids_from") and call.args:
         txt = unparse(call.args[0], 200)
-        if "singletons" in txt or ("filterby" in txt and "size" in txt):
+        if "singletons" in txt or ("filterby" in txt and "size" in txt) or _selects_by_len(call.args[0], 1):
             return "singletons"
+        return "unclassified"
     if name == "remove_nodes_from" and call.args:
         txt = unparse(call.args[0], 200)
-        if "isolates" in txt or ("filterby" in txt and "degree" in txt):
+        if "isolates" in txt or ("filterby" in txt and "degree" in txt) or _selects_by_len(call.args[0], 0):
             return "isolates"
+        return "unclassified"
     return None
+
+
+def _selects_by_len(arg, n):
+    """a comprehension that keeps the IDs whose stored set has n elements: `[e for e, m in T.items() if len(m) == n]`
+    (also `< n + 1`, `<= n`, and for n == 0 `not m`)"""
+    if not isinstance(arg, (ast.ListComp, ast.SetComp, ast.GeneratorExp)) or len(arg.generators) != 1:
+        return False
+    for t in arg.generators[0].ifs:
+        if n == 0 and isinstance(t, ast.UnaryOp) and isinstance(t.op, ast.Not) and isinstance(t.operand, (ast.Name, ast.Subscript)):
+            return True
+        if isinstance(t, ast.Compare) and len(t.ops) == 1 and isinstance(t.left, ast.Call) and getattr(t.left.func, "id", None) == "len" and isinstance(t.comparators[0], ast.Constant):
+            c, op = t.comparators[0].value, t.ops[0]
+            if (isinstance(op, ast.Eq) and c == n) or (isinstance(op, ast.Lt) and c == n + 1) or (isinstance(op, ast.LtE) and c == n and n >= 0):
+                return True
+    return False
 
 
 def run(ctx):
@@ -121,6 +138,8 @@ def check_cleanup(repo, res, m, cname):
         for c in own_nodes(st):
             if isinstance(c, ast.Call):
                 k = classify(c)
+                if k == "unclassified":
+                    raise AnalysisError(f"{m.qualname}:{c.lineno}: cannot tell which cleanup step `{unparse(c, 60)}` performs (extractor does not recognise the code)")
                 if k:
                     steps.setdefault(k, []).append((st, c))
     if "relabel" not in steps:
